@@ -1,11 +1,12 @@
 import JenVerif.Tie.WholeDefs
 import JenVerif.Tie.TextSrc
+import JenVerif.Tie.TokenSrc
 /-
   Tie 1b, capstone — the knot tied.  `srcRec cfg n` (WholeDefs.lean) is the null test and the renderer
   ASSEMBLED FROM THE TRANSLATED GO METHODS, `n` levels deep.  Here: on every tree of depth `< n` it is
   the model (`Code.isNull`, `modelRec cfg` = `Code.renderS` + `Code.misuse`).
 
-  Method: induction on `n`.  The node-level theorems (NullSrc / RenderSrc / DictSrc / TextSrc) say what
+  Method: induction on `n`.  The node-level theorems (NullSrc / RenderSrc / DictSrc / TextSrc / TokenSrc) say what
   each translated method computes when its recursion parameter IS the model.  What is added here is
   CONGRUENCE of each translated method in its recursion parameter: the parameter is only ever applied
   to children of the node, `render` only to non-null children and only at `Good` file states that
@@ -491,8 +492,16 @@ theorem srcRec_render_strong (cfg : Cfg) : ∀ (n : Nat) (c : Code), depth c < n
        srcRec_register cfg n⟩
     cases c with
     | nilc => simp [srcRec, modelRec, misuse, renderS]
-    | tok k s => simp [srcRec, modelRec, misuse]
-    | lit v => simp [srcRec, modelRec, misuse]
+    | tok k s =>
+      show Gen.Src.token_render cfg (srcRec cfg n) (Go.tokTyp (.tok k s)) (Go.dynOf (.tok k s)) f w = _
+      rw [token_render_congr cfg (srcRec cfg n) (modelRec cfg) (srcRec_register cfg n),
+        token_render_eq cfg _ (Or.inl ⟨k, s, rfl⟩) f w prev]
+      simp [modelRec, misuse]
+    | lit v =>
+      show Gen.Src.token_render cfg (srcRec cfg n) (Go.tokTyp (.lit v)) (Go.dynOf (.lit v)) f w = _
+      rw [token_render_congr cfg (srcRec cfg n) (modelRec cfg) (srcRec_register cfg n),
+        token_render_eq cfg _ (Or.inr ⟨v, rfl⟩) f w prev]
+      simp [modelRec, misuse]
     | group g items =>
       rw [depth] at hn
       rw [TagsOk] at ht
